@@ -91,7 +91,7 @@ def st_hist_random(tier, seed, d):
     specs = os.path.join(d, "specs.ndjson")
     n = {"quick": 1, "thorough": 20}[tier]
     plan = [("random", 110 * n), ("crash", 30 * n), ("floats", 20 * n), ("single", 20 * n),
-            ("deliver", 50 * n), ("fail", 40 * n), ("damage", 50 * n), ("arrays", 60 * n), ("travel", 36 * n), ("objapi", 30 * n)]
+            ("deliver", 50 * n), ("fail", 40 * n), ("damage", 50 * n), ("arrays", 60 * n), ("travel", 36 * n), ("objapi", 30 * n), ("cache", 24 * n)]
     base = 0
     open(specs, "w").close()
     for prof, cnt in plan:
